@@ -60,6 +60,16 @@ def _default(o):
 
 
 def arr_digest(a):
+    """digest for the cross-process event log: values quantised to float32, so that last-bit differences that
+    BLAS / ARPACK kernels show between processes (memory alignment) do not change the log; decisions are unaffected."""
+    import numpy as np
+    with np.errstate(all='ignore'):
+        a = np.ascontiguousarray(np.asarray(a, dtype=float).astype(np.float32))
+    return hashlib.blake2b(a.tobytes(), digest_size=8).hexdigest()
+
+
+def arr_digest_exact(a):
+    """bitwise digest, for comparisons inside one process (snapshots of returned models)."""
     import numpy as np
     a = np.ascontiguousarray(np.asarray(a, dtype=float))
     return hashlib.blake2b(a.tobytes(), digest_size=8).hexdigest()
